@@ -289,7 +289,7 @@ func genCase(t *rapid.T) *c14Case {
 		}
 		c.Work = append(c.Work, gs)
 	}
-	c.Choices = rapid.SliceOfN(rapid.IntRange(0, 7), 150, 150).Draw(t, "choices")
+	c.Choices = gen.Schedule(t, 150, "sched")
 	return c
 }
 
